@@ -151,6 +151,9 @@ def delta_conformity(dg, start: int, delta: int, alphas: list, labels: list, pro
     if len(alphas) < 1 or len(labels) < 1:
         raise ValueError("At list one value must be specified for both alphas and labels")
 
+    # damping factors that share their "%.2f" key share one entry of the result: keep one of them
+    alphas = list({"%.2f" % a: a for a in alphas}.values())
+
     profiles = []
     for i in range(1, profile_size + 1):
         profiles.extend(combinations(labels, i))
